@@ -13,6 +13,10 @@ Proof. vm_compute. reflexivity. Qed.
 Lemma destroy_order_fixed : DESTROY_UNREGISTERS_FIRST = false.
 Proof. vm_compute. reflexivity. Qed.
 
+(* the repaired coroutine.resume: a refused resume takes its arguments back *)
+Lemma resume_rolls_back : RESUME_ROLLS_BACK_ARGS = true.
+Proof. vm_compute. reflexivity. Qed.
+
 Lemma storage_size_pos : 0 < STORAGE_SIZE.
 Proof. vm_compute. lia. Qed.
 
